@@ -348,6 +348,47 @@ fn image(w: usize, h: usize, family: u32, src: &mut dyn FnMut() -> u8) -> Vec<u8
                 }
             }
         }
+        6 => {
+            // nearly flat: the whole image spans two to five grey levels around one base level
+            // (a global "is this picture flat?" test sits right at its threshold)
+            let base = src();
+            let span = 1 + src() % 4; // max - min = 1..4
+            let base = base.min(255 - span);
+            let sparse = src() & 1 == 1;
+            for v in img.iter_mut() {
+                let r = src();
+                *v = base + if sparse { if r % 16 == 0 { span } else { 0 } } else { r % (span + 1) };
+            }
+            if !img.is_empty() {
+                // make sure both ends of the span occur
+                let k = img.len();
+                img[src() as usize * 131 % k] = base;
+                img[src() as usize * 137 % k] = base + span;
+            }
+        }
+        7 => {
+            // headroom-limited: no sample closer than m to 0 or 255 (m = 1..12, the strengths),
+            // piecewise flat 8x8 blocks at the two ends of that range and in between, with steps
+            // that make both passes overshoot at block corners
+            let m = 1 + src() % 12;
+            let bw = (w + 7) / 8;
+            let bh = (h + 7) / 8;
+            let levels: Vec<u8> = (0..bw * bh)
+                .map(|_| match src() % 6 {
+                    0 => m,
+                    1 => 255 - m,
+                    2 => m + src() % 4,
+                    3 => 255 - m - src() % 4,
+                    4 => (255 - m).saturating_sub(96 + src() % 8).max(m),
+                    _ => (m + 96 + src() % 8).min(255 - m),
+                })
+                .collect();
+            for y in 0..h {
+                for x in 0..w {
+                    img[x + y * w] = levels[x / 8 + (y / 8) * bw];
+                }
+            }
+        }
         _ => {
             // constant rows or constant columns (every lane of a vector chunk sees the same pattern)
             let rows = src() & 1 == 0;
@@ -384,7 +425,7 @@ fn check_image(img: &[u8], w: usize, s: u8) -> Result<bool, String> {
 fn grid_item(seed: u64, wmax: u64, i: u64, acc: &mut Acc) {
     let w = (i % wmax + 1) as usize;
     let h = (i / wmax) as usize;
-    for family in 0..6u32 {
+    for family in 0..8u32 {
         for s in 1..=12u8 {
             let bytes = super::content_bytes(seed ^ ((w as u64) << 24) ^ ((h as u64) << 12) ^ ((family as u64) << 4) ^ s as u64, w * h * 2 + 128);
             let mut k = 0;
@@ -403,16 +444,16 @@ fn grid_item(seed: u64, wmax: u64, i: u64, acc: &mut Acc) {
         }
     }
     if w % 8 != 0 && h >= 10 {
-        acc.label_n("horizontal edge with remainder columns", 72);
+        acc.label_n("horizontal edge with remainder columns", 96);
     }
     if h % 8 != 0 && w >= 10 {
-        acc.label_n("vertical edge with remainder rows", 72);
+        acc.label_n("vertical edge with remainder rows", 96);
     }
     if h < 10 && w < 10 {
-        acc.label_n("no filterable edge", 72);
+        acc.label_n("no filterable edge", 96);
     }
     if w == 19 && h == 11 {
-        acc.sample(|| json!({"w": w, "h": h, "families": ["hash bytes", "piecewise flat 8x8 blocks", "extremes", "plateaus in ramps", "constant rows / columns", "repeating tiles"], "strengths": "1..=12"}));
+        acc.sample(|| json!({"w": w, "h": h, "families": ["hash bytes", "piecewise flat 8x8 blocks", "extremes", "plateaus in ramps", "constant rows / columns", "repeating tiles", "nearly flat (2..5 levels)", "headroom-limited blocks"], "strengths": "1..=12"}));
     }
 }
 
@@ -421,7 +462,7 @@ fn random_image_case(g: &mut Gen, wmax: i64, hmax: i64) -> Verdict {
     let hcap = (6000 / w as i64).clamp(1, hmax);
     let h = g.range(0, hcap) as usize;
     let s = g.range(1, 12) as u8;
-    let family = g.below(6);
+    let family = g.below(8);
     let mut src = || g.byte();
     let img = image(w, h, family, &mut src);
     g.describe(|| json!({"w": w, "h": h, "strength": s, "family": family, "head": &img[..img.len().min(24)]}));
@@ -430,7 +471,7 @@ fn random_image_case(g: &mut Gen, wmax: i64, hmax: i64) -> Verdict {
         Ok(nt) => Verdict::pass_l(
             nt,
             fnv64(&img) ^ ((w as u64) << 40) ^ ((s as u64) << 56),
-            vec![["uniform", "piecewise flat", "extremes", "plateaus in ramps", "constant rows / columns", "repeating tiles"][family as usize]],
+            vec![["uniform", "piecewise flat", "extremes", "plateaus in ramps", "constant rows / columns", "repeating tiles", "nearly flat", "headroom-limited blocks"][family as usize]],
         ),
     }
 }
@@ -524,6 +565,30 @@ fn echo_case(g: &mut Gen) -> Verdict {
     }
 }
 
+/// Images of two megasamples and more with both dimensions large (a frame of video, not a strip):
+/// whatever depends on the total size - work split over threads or bands, with seams - shows here.
+const LARGE_AREA: [(usize, usize); 8] = [(2048, 1040), (1920, 1088), (1500, 1400), (4096, 520), (520, 4096), (2056, 1021), (1021, 2056), (3000, 705)];
+
+fn large_area_item(seed: u64, i: u64, acc: &mut Acc) {
+    let (w, h) = LARGE_AREA[(i / 2) as usize % LARGE_AREA.len()];
+    let family = if i % 2 == 0 { 1u32 } else { 0 };
+    let s = [3u8, 12, 7, 1, 9, 5, 11, 2][(i / 2) as usize % 8];
+    let bytes = super::content_bytes(seed ^ ((w as u64) << 24) ^ ((h as u64) << 4) ^ family as u64, 1 << 16);
+    let mut k = 0;
+    let mut src = || {
+        k += 1;
+        bytes[(k - 1) % bytes.len()] ^ (k >> 16) as u8
+    };
+    let img = image(w, h, family, &mut src);
+    match check_image(&img, w, s) {
+        Err(m) => acc.fail(json!({"kind":"params","large_area":i}), m),
+        Ok(nt) => acc.count(nt),
+    }
+    if i == 0 {
+        acc.sample(|| json!({"sizes": format!("{:?}", LARGE_AREA), "contents": ["piecewise flat", "hash bytes"]}));
+    }
+}
+
 pub fn run(ctx: &Ctx) -> i32 {
     let seed = ctx.seed;
     let mut reports = vec![super::regression_suite(ctx)];
@@ -531,6 +596,7 @@ pub fn run(ctx: &Ctx) -> i32 {
     let gh = ctx.tier.pick(48u64, 64u64);
     reports.push(exhaustive_suite(ctx, "size_grid", gw * (gh + 1), &move |i, acc| grid_item(seed, gw, i, acc)));
     reports.push(exhaustive_suite(ctx, "extreme_aspect", 432, &move |i, acc| extreme_item(seed, i, acc)));
+    reports.push(exhaustive_suite(ctx, "large_area", ctx.tier.pick(8u64, 16u64), &move |i, acc| large_area_item(seed, i, acc)));
     reports.push(exhaustive_suite(ctx, "kernel_lattice", 28 * 28, &lattice_item));
     reports.push(exhaustive_suite(ctx, "kernel_ramp_boundaries", 12 * 9, &ramp_item));
     let kc = ctx.tier.pick(120_000u64, 1_000_000u64);
@@ -573,6 +639,14 @@ pub fn replay(suite: &str, case: &Value) -> Option<Verdict> {
             let thorough = case["tier"].as_str() == Some("thorough");
             let (iw, ih) = if thorough { (400, 300) } else { (160, 120) };
             Some(random_image_case(&mut Gen::new(&tape), iw, ih))
+        }
+        "large_area" => {
+            let mut acc = Acc::default();
+            large_area_item(case["seed"].as_u64().unwrap_or(1), case["large_area"].as_u64()?, &mut acc);
+            Some(match acc.failure {
+                Some((_, _, m, _)) => Verdict::fail(m),
+                None => Verdict::pass(true, 0),
+            })
         }
         "echo_images" => {
             let tape = super::tape_of(case)?;
